@@ -181,6 +181,11 @@ type CallSite struct {
 // CallSites lists every place fn is called statically, may be the target of an interface
 // invoke (CHA over the method name and signature), or is used as a value.
 func (w *World) CallSites(fn *ssa.Function) []CallSite {
+	return w.CallSitesRaw(fn)
+}
+
+// CallSitesRaw is CallSites without attributing helper code to its owner.
+func (w *World) CallSitesRaw(fn *ssa.Function) []CallSite {
 	var out []CallSite
 	var recvT types.Type
 	if fn.Signature.Recv() != nil {
